@@ -187,7 +187,9 @@ func c17Subsets(w *mon.W, idx int) {
 		}
 	}
 	w.Extra("universe_subsets_enumerated", 1)
-	w.Sample(func() interface{} { return mon.D{"keys": fmt.Sprintf("%q", keys), "maxSize": fmt.Sprintf("1..%d", len(keys)+2)} })
+	w.Sample(func() interface{} {
+		return mon.D{"keys": fmt.Sprintf("%q", keys), "maxSize": fmt.Sprintf("1..%d", len(keys)+2)}
+	})
 }
 
 func c17Zoo(w *mon.W, idx int) {
@@ -211,7 +213,9 @@ func c17Zoo(w *mon.W, idx int) {
 			return
 		}
 	}
-	w.Sample(func() interface{} { return mon.D{"nkeys": len(keys), "first_keys": fmt.Sprintf("%.200q", keys[:min(4, len(keys))])} })
+	w.Sample(func() interface{} {
+		return mon.D{"nkeys": len(keys), "first_keys": fmt.Sprintf("%.200q", keys[:min(4, len(keys))])}
+	})
 }
 
 func c17Large(w *mon.W, idx int) {
